@@ -1,0 +1,43 @@
+//! Verification hooks (compiled only with the `verif-hooks` cargo feature).
+//!
+//! The only source of nondeterminism inside this crate is the pivot index that
+//! the quickselect routines in `sort.rs` draw from `thread_rng()`. With the
+//! feature enabled, a per-thread *pivot chooser* may be installed: it is
+//! consulted after every draw and may replace the drawn index, which lets an
+//! external harness enumerate pivot sequences deterministically. With no
+//! chooser installed the drawn index is used unchanged.
+use std::cell::RefCell;
+
+type Chooser = Box<dyn FnMut(usize, usize) -> usize>;
+
+thread_local! {
+    static PIVOT_CHOOSER: RefCell<Option<Chooser>> = RefCell::new(None);
+}
+
+/// Installs (or, with `None`, removes) the pivot chooser of the current thread.
+///
+/// The chooser is called as `chooser(n, drawn)` where `n` is the length of the
+/// (sub-)array being partitioned and `drawn` the index drawn by the random
+/// generator; it must return an index smaller than `n`.
+pub fn set_pivot_chooser(chooser: Option<Chooser>) {
+    PIVOT_CHOOSER.with(|c| *c.borrow_mut() = chooser);
+}
+
+/// Returns the pivot index to use for a (sub-)array of length `n`.
+///
+/// **Panics** if the installed chooser answers with an index `>= n`.
+pub fn pivot(n: usize, drawn: usize) -> usize {
+    PIVOT_CHOOSER.with(|c| match c.borrow_mut().as_mut() {
+        None => drawn,
+        Some(chooser) => {
+            let chosen = chooser(n, drawn);
+            assert!(
+                chosen < n,
+                "verif-hooks: pivot chooser answered {} for length {}",
+                chosen,
+                n
+            );
+            chosen
+        }
+    })
+}
